@@ -44,6 +44,13 @@ MUTANTS = {
         ("enum_cap_at_6", AE, "if len(subgraph) == max_size:", "if len(subgraph) == min(max_size, 6):"),
         ("cache_hit_truncated_when_large", AE, "        if key in self._connected_subgraphs:\n            return self._connected_subgraphs[key]",
          "        if key in self._connected_subgraphs:\n            r = self._connected_subgraphs[key]\n            return r[:-1] if len(r) > 12 else r"),
+        ("result_memoised_by_graph_object", AE,
+         [("        prob = 0.0\n\n        # `components` is a list",
+           "        _m = self.__dict__.setdefault('_memo', {})\n        if (id(G), root, repr(p)) in _m:\n            return _m[(id(G), root, repr(p))][0]\n"
+           "        prob = 0.0\n\n        # `components` is a list"),
+          ("        return prob\n", "        _m[(id(G), root, repr(p))] = (prob, G)\n        return prob\n")], None),
+        ("caller_graph_edges_readded", AE, "        prob = 0.0\n\n        # `components` is a list",
+         "        prob = 0.0\n        _es = list(G.edges())\n        G.remove_edges_from(_es)\n        G.add_edges_from(_es)\n\n        # `components` is a list"),
         ("phi_cached_interface", AE, "            interface_edges = 1.0\n            g = G.copy()",
          "            interface_edges = 1.0\n            g = G.copy()\n            p = self.__dict__.setdefault('_p0', p)"),
     ],
@@ -77,6 +84,11 @@ MUTANTS = {
          "            for i, j in reversed(list(self._MPM._G.edges())):\n                # pull the cover label"),
         ("one_minus_dropped", MP, "return 1 - ((1.0 * outer_sum) / self._MPM._G.order())",
          "return ((1.0 * outer_sum) / self._MPM._G.order())"),
+        ("final_done_not_reset", MP, "            prod = 1\n            done_motifs = set()\n", "            prod = 1\n            done_motifs = getattr(self, '_dm', None) or self.__dict__.setdefault('_dm', set())\n"),
+        ("avg_over_nonisolated", MP, "/ self._MPM._G.order())", "/ max(1, sum(1 for n in self._MPM._G.nodes() if self._MPM._G.degree(n) > 0)))"),
+        ("u_from_previous_sweep_only", MP, "        self._H_tau[(focal, motif_ID)] = self.resolve_equation(focal, label, prods)",
+         "        self._H_new = getattr(self, '_H_new', {})\n        self._H_new[(focal, motif_ID)] = self.resolve_equation(focal, label, prods)\n"
+         "        if focal == max(vertices_in_motif):\n            self._H_tau.update(self._H_new)"),
         ("mixin_id_is_topology", MX, "return int(label.split('-')[-1])", "return int(label.split('-')[0])"),
     ],
 }
@@ -85,10 +97,13 @@ MUTANTS = {
 def run(pid, name, path, old, new):
     f = os.path.join(REPO, path)
     src = open(f).read()
-    if old not in src:
-        print(f"{pid} {name}: PATTERN NOT FOUND")
-        return
-    open(f, "w").write(src.replace(old, new, 1))
+    pairs = old if isinstance(old, list) else [(old, new)]
+    for o, n in pairs:
+        if o not in src:
+            print(f"{pid} {name}: PATTERN NOT FOUND")
+            return
+        src = src.replace(o, n, 1)
+    open(f, "w").write(src)
     try:
         env = dict(os.environ, GCMPY_REPO=REPO)
         p = subprocess.run([os.path.join(WT, "check"), pid], capture_output=True, text=True, env=env, cwd=WT)
